@@ -47,6 +47,7 @@ type sconn struct {
 	baseDepth   int // call-stack depth of the first Read
 	maxDepth    int // call-stack depth after the first run of empty reads (recursion per empty read shows here)
 	sawEOF      bool
+	wbHits      int // Reads answered "would block" since the driver last reset the counter
 }
 
 func (c *sconn) Read(p []byte) (int, error) {
@@ -69,6 +70,8 @@ func (c *sconn) Read(p []byte) (int, error) {
 			if c.sawEOF {
 				return 0, io.EOF
 			}
+
+			c.wbHits++
 
 			return 0, errWouldBlock
 		}
